@@ -86,6 +86,7 @@ type stack struct {
 
 	batches []kvdb.Batch
 	snaps   []kvdb.Snapshot
+	decoys  []kvdb.Store // sibling tables created after the real ones, never used
 }
 
 func (s *stack) String() string {
@@ -119,7 +120,20 @@ func (s *stack) wrap() {
 	for _, l := range s.layers {
 		switch l.kind {
 		case "table":
-			cur = table.New(cur, l.prefix)
+			// prefixes are handed over as slices with spare capacity (as table.MigrateTables does), and a sibling
+			// view of the same parent is created afterwards and never used: neither may disturb this table
+			pfx := make([]byte, len(l.prefix), len(l.prefix)+8)
+			copy(pfx, l.prefix)
+			parent := cur
+			cur = table.New(parent, pfx)
+			dp := make([]byte, len(l.prefix), len(l.prefix)+8)
+			for i, b := range l.prefix {
+				dp[i] = ^b
+			}
+			if len(dp) == 0 {
+				dp = append(dp, 0x5a)
+			}
+			s.decoys = append(s.decoys, table.New(parent, dp))
 		case "flushable":
 			f := flushable.Wrap(cur)
 			s.flush = append([]*flushable.Flushable{f}, s.flush...)
